@@ -36,6 +36,9 @@ SWEEP_T = [1, 2, 5, 8]
 SWEEP_LEN = 48
 
 
+SEEDED_SCALE = {"quick": 4, "thorough": 10}      # multiplies the run counts of the sampled families in plan()
+ENUMERATED = ('wb_sweep', 'axil_sweep', 'waittimer')       # families whose size is the size of an enumeration
+
 def plan(tier):
     if tier == "quick":
         return [("wb", 150), ("axil", 100), ("axi", 100), ("wb_sweep", len(SWEEP_T) * SWEEP_LEN), ("axil_sweep", 2 * SWEEP_LEN), ("waittimer", 16)]
